@@ -39,7 +39,7 @@ ASSUMPTIONS = [
     "Taillard text is written by the harness in the documented layout (header line, one line per job of machine/duration pairs)",
 ]
 BOUNDS = {
-    "quick": "views+round trips: K3, K4[seed%4::4], M3 small, probes; schedules: K3 NF + K4 NF[seed%4::4] all complete histories; sequences: K3 NF, K4 NF[seed%4::4], 2x2/recirculation probes - all permutation tuples; immutability: K3[seed%8::8] + probes",
+    "quick": "views+round trips: K3, K4[seed%4::4], M3 small, probes, 8 bundled benchmark instances as loaded (thorough: all 162); schedules: K3 NF + K4 NF[seed%4::4] all complete histories; sequences: K3 NF, K4 NF[seed%4::4], 2x2/recirculation probes - all permutation tuples; immutability: K3[seed%8::8] + probes",
     "thorough": "views: K3, K4, M3, NF5 slice, probes; schedules/sequences: K3 NF, K4 NF, NF5 slice (<= 20000 tuples per instance); immutability: K3, K4[::16], probes",
 }
 
@@ -62,17 +62,33 @@ def cases(tier, seed):
         imm = list(F.K3()) + list(F.sliced(F.K4(), seed % 16, 16)) + F.P_ALL
     for s in imm:
         out.append(("immutable", s))
+    bench = ["ft06", "la01", "abz5", "orb01", "swv01", "yn1", "ta01", "ta41"]
+    if tier != "quick":
+        bench = BENCHMARKS
+    for i in range(0, len(bench), 8):
+        out.append(("benchmarks", tuple(bench[i : i + 8])))
     return out
 
 
+BENCHMARKS = (
+    ["abz%d" % i for i in range(5, 10)]
+    + ["ft06", "ft10", "ft20"]
+    + ["la%02d" % i for i in range(1, 41)]
+    + ["orb%02d" % i for i in range(1, 11)]
+    + ["swv%02d" % i for i in range(1, 21)]
+    + ["yn%d" % i for i in range(1, 5)]
+    + ["ta%02d" % i for i in range(1, 81)]
+)
+
+
 def heavy(case):
-    return F.n_ops(case[1]) >= 5
+    return case[0] == "benchmarks" or F.n_ops(case[1]) >= 5
 
 
 def run_case(case) -> Res:
     res = Res()
     kind, spec = case
-    {"views": run_views, "schedules": run_schedules, "sequences": run_sequences, "immutable": run_immutable}[kind](res, spec)
+    {"views": run_views, "schedules": run_schedules, "sequences": run_sequences, "immutable": run_immutable, "benchmarks": run_benchmarks}[kind](res, spec)
     return res
 
 
@@ -100,15 +116,28 @@ def nan_eq(a, b):
     return a.shape == b.shape and a.dtype == b.dtype and np.array_equal(a, b, equal_nan=True)
 
 
-def run_views(res, spec):
+def run_benchmarks(res, names):
+    """The bundled benchmark instances (a fixed list, not a space): the loaded
+    objects' views and round trips, through the same oracle."""
+    from job_shop_lib.benchmarking import load_benchmark_instance
+
+    for name in names:
+        inst = load_benchmark_instance(name)
+        spec = impl.spec_of_instance(inst)
+        run_views(res, spec, inst=inst, name=name, meta=dict(inst.metadata))
+
+
+def run_views(res, spec, inst=None, name="inst-name", meta=None):
     check = "views_match_definition"
     ref = Ref(spec)
     res.add("evaluations")
     res.add("states")
     if ref.J >= 2 and ref.N >= 3:
         res.add("nontrivial")
-    meta = {"k": [1, 2], "lower_bound": 3}
-    inst = impl.mk_instance(spec, name="inst-name", **meta)
+    if meta is None:
+        meta = {"k": [1, 2], "lower_bound": 3}
+    if inst is None:
+        inst = impl.mk_instance(spec, name=name, **meta)
 
     def bad(kind, **kw):
         res.violation(check, kind, spec=spec, **kw)
@@ -144,10 +173,10 @@ def run_views(res, spec):
         ),
         "total_duration": (inst.total_duration, sum(d for job in spec for _, d in job)),
     }
-    for name, (got, want) in views.items():
+    for vname, (got, want) in views.items():
         res.add("transitions")
         if got != want:
-            bad(f"view:{name}", observed=got, expected=want)
+            bad(f"view:{vname}", observed=got, expected=want)
     dm = np.full((ref.J, maxlen), np.nan, dtype=np.float32)
     for j, job in enumerate(spec):
         dm[j, : len(job)] = [d for _, d in job]
@@ -169,7 +198,7 @@ def run_views(res, spec):
     # ---- round trips -----------------------------------------------------
     from job_shop_lib import JobShopInstance
 
-    def same(other, how, name="inst-name", metadata=meta):
+    def same(other, how, name=name, metadata=meta):
         res.add("transitions")
         if content(other) != expected_content(spec):
             bad(f"roundtrip:{how}:operations", observed=content(other), expected=expected_content(spec))
